@@ -392,15 +392,13 @@ class MHLHistory:
 
         # TODO: validate new hash entries
         for media_hash in hash_list.media_hashes:
+            # a hash in a new format needs an already recorded format of the same file that verified in this
+            # generation (not necessarily the format of the original hash, which may not have been requested)
+            verified_hash_entries = [entry for entry in media_hash.hash_entries if entry.action == "verified"]
             for hash_entry in media_hash.hash_entries:
                 if hash_entry.action == "new":
-                    # TODO: do need to use the original hash here or can we also use another hash
-                    original_hash_entry = self.find_original_hash_entry_for_path(media_hash.path)
-                    required_hash_entry = media_hash.find_hash_entry_for_format(original_hash_entry.hash_format)
-                    if required_hash_entry is None:
-                        raise AssertionError("no hash entry found for new hash", hash_entry)
-                    if required_hash_entry.action != "verified":
-                        raise AssertionError("hash entry for new hash not verified", hash_entry, required_hash_entry)
+                    if len(verified_hash_entries) == 0:
+                        raise AssertionError("no verified hash entry found for new hash", hash_entry)
                     hash_entry.action = "verified"
         return True
 
